@@ -55,6 +55,13 @@ CHECKS.update({
    technique="TLA+ line/token model of the sectioner with column arithmetic + exhaustive TLC check + trace validation of real diagnostics"),
 })
 
+CHECKS.update({
+ "C13": dict(level="model_checking", ref="5/C13",
+   note="layout transformations implemented on patch text (lib/prop_c13.py); results compared as syntax terms of harness/alpha.go; the real sectioner observed through the verif export patch.VerifSplit; TLC evaluating Splitter.tla",
+   text="Splitter.tla transcribes the line-by-line sectioner (comment skipping, description = '#' lines directly above the header, blank lines before a header) and TLC checks it against the declarative structure for every well-formed file of up to 7 line kinds; each such file is rendered, cut by the real sectioner and compared by TLC. End to end, every testdata patch x input is run with seeded layout variants (compositions of up to 3 of: comment lines, blank lines, naming the change, renaming metavariables, regrouping/reordering/;-joining declarations, re-spacing both sides, context line <-> identical -/+ pair) and TLC requires syntactically identical results.",
+   technique="TLA+ sectioner machine vs declarative structure (exhaustive) + metamorphic trace validation judged by TLC"),
+})
+
 NOT_YET = {
 }
 
@@ -68,7 +75,7 @@ def main():
             "thorough_cmd": "./check %s thorough" % pid,
             "evidence_file": "evidence/%s.json" % pid,
             "replay_cmd_template": "./check %s quick --replay {path}" % pid,
-            "engine": "tla-rewrite" if pid in ("C01","C02","C03","C04","C05") else ("tla-section" if pid in ("C19",) else "tla-run"),
+            "engine": "tla-rewrite" if pid in ("C01","C02","C03","C04","C05") else ("tla-section" if pid in ("C13", "C19") else "tla-run"),
             "level_claimed": {"category": c["level"], "text": c["text"], "design_ref": "DESIGN.md section " + c["ref"]},
             "level_note": c.get("note", TRUST),
             "technique": c["technique"],
@@ -91,8 +98,8 @@ def main():
             {"name": "tla-run", "path": "spec/Pipeline.tla spec/TracePipeline.tla spec/TraceModes.tla spec/Generated.tla spec/Discover.tla spec/TraceDiscover.tla harness/cli.go lib/fam_run.py lib/fam_emit.py",
              "serves_properties": ["C06", "C07", "C12", "C15", "C16", "C18"],
              "kind_free_text": "state machine of the command's run pipeline with fault actions; hook-event and black-box trace validation of real CLI runs (strace, prlimit)"},
-            {"name": "tla-section", "path": "spec/Section.tla spec/TraceSection.tla lib/prop_c19.py",
-             "serves_properties": ["C19"], "kind_free_text": "token-level model of the patch sectioner and metavariable parser"},
+            {"name": "tla-section", "path": "spec/Section.tla spec/TraceSection.tla spec/Splitter.tla spec/TraceSplitter.tla lib/prop_c19.py lib/prop_c13.py",
+             "serves_properties": ["C13", "C19"], "kind_free_text": "token-level model of the patch sectioner and metavariable parser; line-kind machine of the sectioner"},
             {"name": "tla-rewrite", "path": "spec/Pattern.tla spec/RewriteUniverse.tla spec/MCRewrite.tla spec/TraceRewrite.tla harness/",
              "serves_properties": ["C01", "C02", "C03", "C04", "C05"],
              "kind_free_text": "TLA+ P-layer/I-layer of the pattern language; TLC design check; vectors replayed into patch.Parse/File.Apply; TLC trace validation"},
